@@ -55,9 +55,27 @@ CHECKS.update({
         technique="TLA+ state machine of the file set + TLC exhaustive export replayed into the real FileSet/File + TLC trace validation of recorded real file sets", ref="5 (C11)"),
 })
 
+CHECKS.update({
+    "C09": dict(engine="Reader",
+        text="Reader.tla gives the byte-level meaning of every reader primitive (UTF-8 decoding, word boundary, whitespace modes, custom functions; the "
+             "regexp primitives relative to Go's regexp) and is a cursor machine whose invariants are the bounds clause; TLC exports every (content, base, "
+             "position) of bounded families with the expected result of every primitive, the harness replays them on real readers placed at that base; "
+             "random contents (any bytes, CRLF, multi-byte and invalid runes) are recorded and validated by ReaderTrace.",
+        note="exhaustive over contents <= 3-5 bytes of a class-complete alphabet; the regexp engine is delegated to Go's regexp (computed by the harness independently of parsley)",
+        technique="TLA+ byte-level specification + cursor machine checked by TLC; exported cases replayed into the real Reader; TLC trace validation of recorded real calls", ref="5 (C09)"),
+    "C10": dict(engine="Trim",
+        text="Trim.tla states the whitespace modes as the property does; TrimMC runs the LeftTrim/RightTrim actions of ParsleyMachine on every (gap strings, mode "
+             "assignment) of bounded token sequences and TLC checks machine = property; every case is replayed on the real trims (outcome, error kind and "
+             "position, node spans, values, error text), the probe traces are validated against the machine, and random long sequences are judged by TrimTrace.",
+        note="token sequences that match the grammar (only whitespace varies); exhaustive for 1 token with gaps <= 2-3 and 2-3 tokens with short gaps",
+        technique="TLA+ property statement vs TLA+ machine (TLC refinement check) + replay of TLC cases into real trims + TLC-judged recorded outcomes", ref="5 (C10)"),
+})
+
 NOT_YET = {}
 
 ENGINES = [
+    dict(name="Reader", path="spec/Reader.tla", serves_properties=["C09"], kind_free_text="byte-level reader specification + cursor machine; ReaderMC, ReaderTrace"),
+    dict(name="Trim", path="spec/Trim.tla", serves_properties=["C10"], kind_free_text="whitespace-mode property statement; TrimMC (machine vs property), TrimTrace"),
     dict(name="FileSet", path="spec/FileSet.tla", serves_properties=["C11"], kind_free_text="TLA+ file-set machine; FileSetMC (export), FileSetTrace"),
     dict(name="ParsleyMachine", path="spec/ParsleyMachine.tla", serves_properties=["C01", "C02", "C04", "C06"],
          kind_free_text="TLA+ explicit-stack machine of the parsing algorithm; Derivation.tla (denotational oracle), Grammar.tla (families), "
